@@ -11,7 +11,7 @@ ID = 'C01'
 LEVEL = 'exploration'
 RULE = ('case = 1-6 rule ASTs (literal / plain-wildcard / int / float / re / path segments over a colliding alphabet a, b, ab, abc, /, digits, -, ., '
         'e-acute, CJK; later rules derived from earlier ones: extend, truncate, literal<->wildcard, rename, refilter, split a literal, same pattern with '
-        'other names and another method), each rendered into a generated rule-syntax flavour (:name, <name>, {name}, <name.f(args)>, <name:f(args)>, '
+        'other names and another method or the same method with overwrite=True; some rules are registered and removed again before the requests), each rendered into a generated rule-syntax flavour (:name, <name>, {name}, <name.f(args)>, <name:f(args)>, '
         '<name:f:args>, <f(args)>, <:f(args)>, {:f} ...) and registered; 8 request paths per set: instantiations of the accepted rules with values from '
         'per-filter pools (12, -3, 007, 1.5, tom, a/b, empty ...), one-character edits (insert / delete / replace incl. CR, LF, //), extra slashes, raw '
         'strings. Oracle = independent reference matcher (left-to-right, no backtracking inside a rule; priority: literal beats wildcard at the first '
@@ -36,7 +36,9 @@ def case_st(draw):
     spell = draw(st.integers(0, 1))
     regs = []
     for i, a in enumerate(asts):
-        regs.append({'ast': a, 'choice': draw(st.lists(st.integers(0, 30), max_size=3)), 'method': METHODS[i % len(METHODS)] if draw(st.integers(0, 3)) else 'GET'})
+        regs.append({'ast': a, 'choice': draw(st.lists(st.integers(0, 30), max_size=3)), 'method': METHODS[i % len(METHODS)] if draw(st.integers(0, 3)) else 'GET',
+                     'overwrite': draw(st.integers(0, 3)) == 0,           # re-registration of a (pattern, method) under a rule that may name its wildcards differently
+                     'remove_after': draw(st.integers(0, 5)) == 0})        # registered, then removed again: the router must answer as if it had never been there
     paths = []
     for _ in range(8):
         if draw(st.integers(0, 9)) == 0:
@@ -58,10 +60,22 @@ def register(case):
         if text is None or not R.legal(reg['ast']):
             continue
         try:
-            router.add(text, reg['method'], (lambda i: (lambda **kw: (i, kw)))(i))
+            router.add(text, reg['method'], (lambda i: (lambda **kw: (i, kw)))(i), overwrite=bool(reg.get('overwrite')))
         except Exception:  # rejected registration (filter conflict at one tree position, method taken, ...)
             continue
-        accepted.append((i, R.merge(reg['ast']), reg['method']))
+        ast = R.merge(reg['ast'])
+        # an accepted overwrite replaces the earlier registration of the same (pattern, method)
+        accepted = [(j, a, m) for (j, a, m) in accepted if not (m == reg['method'] and R.pattern_key(a) == R.pattern_key(ast))]
+        accepted.append((i, ast, reg['method']))
+    # rules flagged remove_after are taken out again (by rule text): only the survivors count
+    for i, reg in enumerate(case['regs']):
+        if reg.get('remove_after') and any(j == i for j, _, _ in accepted):
+            key = R.pattern_key(R.merge(reg['ast']))
+            try:
+                router.remove(texts[i])
+            except Exception:
+                raise CheckFailure(f'remove({texts[i]!r}) raised')
+            accepted = [(j, a, m) for (j, a, m) in accepted if R.pattern_key(a) != key]
     return router, accepted, texts
 
 
@@ -160,7 +174,7 @@ def _wsgi_part(ctx, case, accepted, texts):
             box['got'] = (_i, kw)
             return 'h'
         try:
-            app.route(texts[i], method=m, callback=h)
+            app.route(texts[i], method=m, callback=h, overwrite=bool(case['regs'][i].get('overwrite')))
             ok.append((i, ast, m))
         except Exception:
             raise CheckFailure(f'rule {texts[i]!r} was accepted by RadiRouter.add but rejected by Ombott.route on an identical history')
